@@ -205,6 +205,7 @@ SnapState(sn) ==
    par |-> sn.par, cip |-> sn.cip, pic |-> sn.pic,
    scope |-> [i \in 1..N |-> Max(sn.scope[i], 0)],
    force |-> sn.force, numH |-> sn.numh,
+   nsubs |-> [i \in 1..N |-> [j \in 1..sn.nnh[i] |-> 0]],
    nobs |-> [i \in 1..N |-> SeqSet(sn.nobs[i])],
    rhs |-> sn.rhs,
    edges |-> [i \in 1..N |-> [j \in 1..Len(sn.xedges[i]) |-> [child |-> sn.xedges[i][j]]]],
@@ -237,7 +238,7 @@ JudgeOwn(post, obs, afterStabilise, lim) ==
   \cup {Viol("C12", <<"node", n, "was released although it is still referenced">>) : n \in rel \ want}
 
 \* binding C: the snapshot must equal the spec state on the engine's own variables
-Diverge(post, sn, order) ==
+Diverge(post, sn, order, ndlv, gotNdlv) ==
   LET N == Min(post.n, Len(sn.valid))
       live == {n \in 1..N : n \notin SeqSet(sn.rel)}
       D(name, ok) == IF ok THEN {} ELSE {name}
@@ -266,6 +267,10 @@ Diverge(post, sn, order) ==
      \cup D("stats", /\ post.stats.created = sn.ncreated /\ post.stats.changed = sn.changed
                      /\ post.stats.recomputed = sn.recomputed /\ post.stats.invalidated = sn.invalidated
                      /\ post.stats.becameNec = sn.becamenec /\ post.stats.becameUnnec = sn.becameunnec)
+     \cup D("nsubs", \A n \in live : Len(post.nsubs[n]) = sn.nnh[n])
+     \* deliveries to node-level on_update handlers of the round, as a multiset
+     \cup D("ndlv", \A x \in SeqSet(ndlv) \cup SeqSet(gotNdlv) :
+                       Cardinality({i \in 1..Len(ndlv) : ndlv[i] = x}) = Cardinality({i \in 1..Len(gotNdlv) : gotNdlv[i] = x}))
      \cup D("order", "order" \notin DOMAIN sn \/ sn.order = <<>> \/ order = sn.order)
 
 ---------------------------------------------------------------------------
@@ -276,9 +281,19 @@ Diverge(post, sn, order) ==
 (* still coincide (same count, every node created in the same bind scope).  *)
 (* In the round where they stop coinciding only ids that existed before the *)
 (* round are compared; the rest of that run is not interpreted (a NOTE).    *)
+\* nodes made by a memoised function (they sit in its table): C20 says which scope they belong to, so
+\* a different scope on such a node is a finding of its own (JudgeMemoScope), not a re-numbering
+MemoMade(post) == UNION {{post.memos[m].table[i].node : i \in 1..Len(post.memos[m].table)} : m \in 1..Len(post.memos)}
+WrongScope(post, sn) ==
+  {n \in 1..Min(post.n, Len(sn.valid)) : n \notin SeqSet(sn.rel) /\ sn.scope[n] # -1 /\ sn.scope[n] # post.scope[n]}
 Aligned(post, sn) ==
   /\ Len(sn.valid) = post.n
-  /\ \A n \in 1..post.n : \/ n \in SeqSet(sn.rel) \/ sn.scope[n] = -1 \/ sn.scope[n] = post.scope[n]
+  /\ WrongScope(post, sn) \subseteq MemoMade(post)
+JudgeMemoScope(post, obs) ==
+  IF Len(obs.snap.valid) # post.n THEN {} ELSE
+  {Viol("C20", <<"node", n, "made by the memoised function belongs to scope", obs.snap.scope[n],
+                 "instead of the scope weak_memoize_fn was called in", post.scope[n]>>) :
+     n \in WrongScope(post, obs.snap) \cap MemoMade(post)}
 
 TraceInit == st = InitState(DefaultMaxH) /\ l = 1 /\ nbad = 0 /\ ndiv = 0 /\ iddiv = FALSE
 
@@ -317,9 +332,12 @@ TraceStep ==
                            THEN JudgeReads(post, obs) \cup JudgeVars(post, obs, lim) \cup JudgeRets(post, obs)
                                 \cup (IF e.a = "stabilise" THEN JudgeInv(pre, obs, coneB, lim) \cup JudgeDlv(pre, obs) \cup JudgeInReads(pre, obs) \cup JudgeMemo(pre, obs) \cup JudgeCut(pre, obs, coneB, lim) ELSE {})
                                 \cup JudgeAudit(post, obs) \cup JudgeOwn(post, obs, e.a = "stabilise", lim)
+                                \cup JudgeMemoScope(post, obs)
                            ELSE {})
               div == IF ~aligned THEN {"ids"}
-                     ELSE IF obs.panic = "" /\ Ok(post) THEN Diverge(post, obs.snap, IF e.a = "stabilise" THEN pre.order ELSE <<>>)
+                     ELSE IF obs.panic = "" /\ Ok(post) THEN Diverge(post, obs.snap, IF e.a = "stabilise" THEN pre.order ELSE <<>>,
+                                                                  IF e.a = "stabilise" THEN pre.ndlv ELSE <<>>,
+                                                                  IF e.a = "stabilise" /\ "ndlv" \in DOMAIN obs THEN obs.ndlv ELSE <<>>)
                      ELSE IF obs.panic = "" /\ ~Ok(post) THEN {"model_panics:" \o post.panic} ELSE {}
           IN /\ st' = Settle(post)
              /\ iddiv' = ~aligned
